@@ -298,7 +298,7 @@ def same_isfast(chk, program):
             shapes.append(''.join(p[1] if p[0] == 'const' else '{' + (p[1][1] if p[1][0] == 'param' else '?') + '}' for p in t[1]))
     p0 = ex.params[0]
     shapes = [x for x in shapes if x.startswith('is_fast_pgn_')]
-    chk.check(shapes == ['is_fast_pgn_{' + p0 + '}'], 'FP-TYPE', '_isFastPGN::name-formation', file=DEC, line=isf.lineno, expected='is_fast_pgn_{pgn}', found=shapes)
+    chk.anchor(shapes == ['is_fast_pgn_{' + p0 + '}'], 'FP-TYPE', '_isFastPGN::name-formation', file=DEC, line=isf.lineno, expected='is_fast_pgn_{pgn}', found=shapes)
     # encoder: the fast path is taken exactly when the oracle says fast
     g = sym.SymExec(enc)
     try:
